@@ -1,6 +1,7 @@
 package worlds
 
 import (
+	"bytes"
 	"sync/atomic"
 	"strings"
 	"crypto/tls"
@@ -31,6 +32,9 @@ type UpScript struct {
 	SendChunks []Chunk
 	// AbortAt >= 0: reset the connection after receiving this many bytes
 	AbortAt int
+	// EchoTimes > 1: an echoing datagram upstream answers each datagram with that many copies of
+	// it in ONE datagram (answers larger than anything the client sent).
+	EchoTimes int
 	// StallBeforeRead delays the first read (a slow upstream).
 	StallBeforeRead time.Duration
 	// NoCloseWrite: finish sending with a full Close instead of a half-close
@@ -169,7 +173,11 @@ func (p *ProxyUps) serve(addr string, c net.Conn, end *simnet.End, idx int) {
 					lk()
 					rec.InWrite = true
 					ulk()
-					_, werr := c.Write(buf[:n])
+					out := buf[:n]
+					if sc.EchoTimes > 1 && end.Dgram() {
+						out = bytes.Repeat(buf[:n], sc.EchoTimes)
+					}
+					_, werr := c.Write(out)
 					lk()
 					rec.InWrite = false
 					ulk()
